@@ -338,6 +338,9 @@ func checkC08(c *Ctx, e *Env) {
 	m, r := e1Handlers(c, e)
 	p := m.P
 	noteUndecided(c, m, r, "C08.E1")
+	importObligations(c, e, checkC14, "C14", "C08.ROLEKEY", "role rows#keyed-by-their-entity", "the issuer role is the existence of a ClassIssuer row under the class's key: a role row written under another entity's key grants the role there", func(o *Oblig) bool {
+		return o.Rule == "C14.FK" && strings.Contains(o.Construct, "#ClassIssuer.")
+	})
 	// SIGNER: the account that must sign is GetSigners(); every message type decodes its signer field
 	// there with the error discarded, so the role checks below speak about the real signer only if the
 	// message validator has decoded that same field successfully on every accepting path
@@ -503,6 +506,7 @@ func checkC03(c *Ctx, e *Env) {
 	p := m.P
 	noteUndecided(c, m, r, "C03.E1")
 	ruleAskDenom(c, m, r)
+	importObligations(c, e, checkC07, "C07", "C03.FILLPAY", "fills#paid-for-what-is-taken", "the one case in which an account loses credits without signing is a fill of its own sell order, and then it is paid quantity × ask for exactly the quantity taken from its escrow", func(o *Oblig) bool { return o.Rule == "C07.COINS" || o.Rule == "C07.CREDITS" })
 	nDebit, nBank := 0, 0
 	for _, h := range r.Handlers {
 		signer := ""
